@@ -58,6 +58,22 @@ def cases(ctx):
         m = bds20(codes)
         yield dict(op="cs20 " + m, real=("pyModeS.commb.cs20", [m]), expect=e, tag="cs20-random")
         yield dict(op="is20 " + m, real=("pyModeS.commb.is20", [m]), expect="True", tag="is20")
+    # two identifications that differ in exactly one character, decoded one after the other through different entry
+    # points (is20 / infer / cs20 / callsign first, then the other string): the second answer must be its own
+    for _ in range(ctx.n(1500, 20000)):
+        codes = [rng.choice(CODES) for _ in range(8)]
+        pos = rng.randrange(8)
+        codes2 = list(codes)
+        codes2[pos] = rng.choice([c for c in CODES if c != codes[pos]])
+        e2 = "".join(LEGAL[c] for c in codes2)
+        a, b = bds20(codes), bds20(codes2)
+        first = rng.choice(["pyModeS.commb.is20", "pyModeS.bds.infer", "pyModeS.commb.cs20"])
+        yield dict(op="cs20 " + b, real=("h:adapters.after", [[[first, [a], {}]], "pyModeS.commb.cs20", [b]]), expect=e2,
+                   tag="cs20-after-neighbour", stateful=True)
+        a, b = adsb_id(codes), adsb_id(codes2)
+        first = rng.choice(["pyModeS.adsb.callsign", "pyModeS.bds.infer", "pyModeS.adsb.category"])
+        yield dict(op="callsign " + b, real=("h:adapters.after", [[[first, [a], {}]], "pyModeS.adsb.callsign", [b]]), expect=e2,
+                   tag="callsign-after-neighbour", stateful=True)
     for tc in range(1, 5):
         for ca in range(8):
             for _ in range(ctx.n(10, 100)):
